@@ -211,7 +211,7 @@ def run(ck, F):
                             else:
                                 ck.violation("R3", f"{d}", B.term(bb).get("sp"),
                                              f"Files.map is accessed through {d} ({why}): files that are not reachable by an import can influence the result", fn=b["path"])
-    ck.floor("R3", "Files.map access sites", n_acc, 3)
+    ck.floor("R3", "Files.map access sites", n_acc, 2)
     rule_verbatim_keys(ck, F, "R4")
     # ---- R4 utils
     ub = F.lib.body("utils::read_input_file_and_xsd_files_at_path")
